@@ -113,6 +113,11 @@ Definition n_hvcC := name4 104 118 99 67.
 Definition n_subs := name4 115 117 98 115.
 Definition n_esds := name4 101 115 100 115.
 Definition n_uuid := name4 117 117 105 100.
+Definition n_sgpd := name4 115 103 112 100.
+Definition n_seig := name4 115 101 105 103.
+Definition n_roll := name4 114 111 108 108.
+Definition n_rap := name4 114 97 112 32.
+Definition n_alst := name4 97 108 115 116.
 
 (* ---------------------------------------------------------------- box header (box.go / boxsr.go) *)
 Record hdr := mkHdr { h_name : list N; h_size : N; h_len : N }.
@@ -150,6 +155,14 @@ Inductive desc :=
 | DDsi (nb : N) (dc : list N)                                                     (* DecSpecificInfoDescriptor *)
 | DSlc (nb cv : N) (more : list N)                                                (* SLConfigDescriptor *)
 | DRaw (tag nb : N) (data : list N).                                              (* RawDescriptor *)
+
+(* sample group description entries (mp4/samplegroupentries.go) *)
+Inductive sge :=
+| SSeig (crypt skip isp ivs : N) (kid civ : list N)          (* CryptByteBlock SkipByteBlock IsProtected PerSampleIVSize KID ConstantIV *)
+| SRoll (dist : N)                                            (* RollDistance (int16 bit pattern) *)
+| SRap (known num : N)                                        (* NumLeadingSamplesKnown NumLeadingSamples *)
+| SAlst (roll first : N) (offs : list N) (outs : list (N * N)) (* RollCount FirstOutputSample SampleOffset (NumOutputSamples, NumTotalSamples) *)
+| SUnk (data : list N).
 
 Inductive leaf :=
 | LFtyp (name : list N) (data : list N)                 (* ftyp / styp: data []byte *)
@@ -225,7 +238,10 @@ Inductive leaf :=
 | LUuidTfxd (version flags t d : N)
 | LUuidTfrf (version flags count : N) (entries : list (N * N))
 | LUuidSenc (flags count : N) (raw : list N) (readSize : N) (notParsed : bool)
-| LUuidUnk (uuid payload : list N).
+| LUuidUnk (uuid payload : list N)
+(* SgpdBox: Version Flags GroupingType DefaultLength DefaultGroupDescriptionIndex, per entry (description length, entry);
+   canon (ghost): the reserved byte of every seig entry was 0 *)
+| LSgpd (version flags : N) (gtype : list N) (dlen dgdi : N) (items : list (N * sge)) (canon : bool).
 
 Definition leaf_name (l : leaf) : list N :=
   match l with
@@ -247,6 +263,7 @@ Definition leaf_name (l : leaf) : list N :=
   | LHvcC _ _ _ _ _ _ _ _ _ _ _ _ _ _ _ _ => n_hvcC | LSubs _ _ _ => n_subs
   | LEsds _ _ _ _ _ _ _ _ _ _ _ _ => n_esds
   | LUuidTfxd _ _ _ _ => n_uuid | LUuidTfrf _ _ _ _ => n_uuid | LUuidSenc _ _ _ _ _ => n_uuid | LUuidUnk _ _ => n_uuid
+  | LSgpd _ _ _ _ _ _ _ => n_sgpd
   end.
 
 Definition unity_matrix : list N :=
@@ -1090,6 +1107,68 @@ Definition dec_uuid (h : hdr) : parser (leaf * rsvT) :=
   else if h_size h <? 24 then pfail
   else pdo p <- rdB (h_size h - 24) ;; pret (LUuidUnk u p, []).
 
+(* ---------------------------------------------------------------- sgpd (mp4/sgpd.go, mp4/samplegroupentries.go) *)
+Definition sge_size (e : sge) : N :=
+  match e with
+  | SSeig _ _ isp ivs _ civ => 20 + (if (isp =? 1) && (ivs =? 0) then 1 + lenN civ else 0)
+  | SRoll _ => 2
+  | SRap _ _ => 1
+  | SAlst _ _ offs outs => 4 + 4 * lenN offs + 2 * lenN outs + 2 * lenN outs
+  | SUnk d => lenN d
+  end.
+Definition rd_pair16 : parser (N * N) := pdo a <- rd 2 ;; pdo b <- rd 2 ;; pret (a, b).
+Definition wr_pair16 (p : N * N) : list N := be_enc 2 (fst p) ++ be_enc 2 (snd p).
+(* decodeSampleGroupEntry(name, length, sr) followed by the check sgEntry.Size() == descriptionLength of DecodeSgpdSR;
+   the second component is the reserved byte that a seig entry skips (0 for the other kinds) *)
+Definition rd_sge (gt : list N) (dl : N) : parser (sge * N) :=
+  if bytes_eqb gt n_seig then
+    (pdo rs <- rd 1 ;; pdo b2 <- rd 1 ;; pdo isp <- rd 1 ;; pdo ivs <- rd 1 ;; pdo kid <- rdB 16 ;;
+     pdo civ <- (if (isp =? 1) && (ivs =? 0) then (pdo n <- rd 1 ;; rdB n) else pret []) ;;
+     let e := SSeig (b2 / 16) (b2 mod 16) isp ivs kid civ in
+     if negb (dl =? sge_size e) then pfail else pret (e, rs))
+  else if bytes_eqb gt n_roll then
+    (pdo d <- rd 2 ;; if negb (dl =? 2) then pfail else pret (SRoll d, 0))
+  else if bytes_eqb gt n_rap then
+    (pdo b <- rd 1 ;; if negb (dl =? 1) then pfail else pret (SRap (b / 128) (b mod 128), 0))
+  else if bytes_eqb gt n_alst then
+    (pdo rc <- rd 2 ;; pdo first <- rd 2 ;;
+     fun bs0 =>
+       (pdo offs <- rd_many (S (length bs0)) rc (rd 4) ;;
+        if dl <? 4 + 4 * rc then pfail else
+        let rem := (dl - (4 + 4 * rc)) / 4 in            (* int(length-uint32(entry.Size())) / 4 *)
+        if rem =? 0 then (if negb (dl =? 4 + 4 * rc) then pfail else pret (SAlst rc first offs [], 0))
+        else fun bs =>
+          if lenN bs / 4 <? rem then Err                 (* remaining > sr.NrRemainingBytes()/4 *)
+          else (pdo outs <- rd_many (S (length bs)) rem rd_pair16 ;;
+                if negb (dl =? 4 + 4 * rc + 4 * rem) then pfail else pret (SAlst rc first offs outs, 0)) bs) bs0)
+  else (pdo d <- rdB dl ;; pret (SUnk d, 0)).
+Definition wr_sge (e : sge) (rb : N) : list N :=
+  match e with
+  | SSeig crypt skip isp ivs kid civ =>
+      be_enc 1 rb ++ be_enc 1 (N.lor (u8 (crypt * 16)) skip) ++ be_enc 1 isp ++ be_enc 1 ivs ++ kid ++
+      (if (isp =? 1) && (ivs =? 0) then be_enc 1 (lenN civ) ++ civ else [])
+  | SRoll d => be_enc 2 d
+  | SRap known num => be_enc 1 (N.lor (u8 (known * 128)) num)
+  | SAlst rc first offs outs => be_enc 2 rc ++ be_enc 2 first ++ flat_map (be_enc 4) offs ++ flat_map wr_pair16 outs
+  | SUnk d => d
+  end.
+(* one entry of the loop of DecodeSgpdSR: the description length (DefaultLength, or read when that is 0 and version >= 1) *)
+Definition rd_sgpd_item (v dlen : N) (gt : list N) : parser ((N * sge) * N) :=
+  pdo dl <- (if (1 <=? v) && (dlen =? 0) then rd 4 else pret dlen) ;;
+  if dl =? 0 then pfail else
+  pdo x <- rd_sge gt dl ;; pret ((dl, fst x), snd x).
+Definition wr_sgpd_item (dlen : N) (it : (N * sge) * N) : list N :=
+  (if dlen =? 0 then be_enc 4 (fst (fst it)) else []) ++ wr_sge (snd (fst it)) (snd it).
+Definition dec_sgpd (h : hdr) : parser (leaf * rsvT) :=
+  pdo vf <- rd 4 ;;
+  let v := vf_version vf in
+  pdo gt <- rdB 4 ;;
+  pdo dlen <- rd_if (1 <=? v) 4 ;;
+  pdo dgdi <- rd_if (2 <=? v) 4 ;;
+  pdo cnt <- rd 4 ;;
+  fun bs => (pdo its <- rd_many (S (length bs)) cnt (rd_sgpd_item v dlen gt) ;;
+             pret (LSgpd v (vf_flags vf) gt dlen dgdi (map fst its) (forallb (fun x => snd x =? 0) its), [map snd its])) bs.
+
 (* ---------------------------------------------------------------- encoders (bodies) *)
 Definition ok_bytes (l : list N) : res (list N) := Ok l.
 
@@ -1246,6 +1325,10 @@ Definition body_leaf (l : leaf) (r : rsvT) : res (list N) :=
       if negb np && has f 2 && (0 <? cnt) then Panic
       else Ok (uuid_piff ++ be_enc 4 (vf_join 0 f) ++ be_enc 4 cnt ++ (if np then raw else []))
   | LUuidUnk u p => Ok (u ++ p)
+  | LSgpd v f gt dlen dgdi items _ =>
+      (* the reserved byte of a seig entry is written as 0: chunk 0 holds one byte per entry *)
+      Ok (be_enc 4 (vf_join v f) ++ gt ++ wr_if (1 <=? v) 4 dlen ++ wr_if (2 <=? v) 4 dgdi ++ be_enc 4 (lenN items) ++
+          flat_map (wr_sgpd_item dlen) (combine items (chunk 0 r)))
   end.
 
 (* WriteZeroBytes(int(31 - compressorNameLength)) with compressorNameLength := byte(len(name)), in byte arithmetic *)
@@ -1270,6 +1353,7 @@ Definition dflt_rsv (l : leaf) : rsvT :=
   | LElng _ _ _ lang => [lang ++ [0]]
   | LHvcC _ _ _ _ _ _ _ _ _ _ _ _ _ _ _ _ => [[15]; [63]; [63]; [31]; [31]; []]
   | LEsds _ _ nb _ fl _ url _ dcd cs u _ => esds_dflt nb fl url dcd cs u
+  | LSgpd _ _ _ _ _ items _ => [map (fun _ => 0) items]
   | _ => []
   end.
 
@@ -1360,6 +1444,9 @@ Definition size_leaf (l : leaf) : N :=
   | LUuidTfrf v _ cnt _ => 24 + 5 + (if negb (v =? 0) then 16 else 8) * cnt
   | LUuidSenc _ _ _ rs _ => 24 + (rs - 8)                  (* b.Senc.Size() - 8 *)
   | LUuidUnk _ p => 24 + lenN p
+  | LSgpd v _ _ dlen _ items _ =>
+      20 + (if 1 <=? v then 4 else 0) + (if 2 <=? v then 4 else 0) +
+      (if 1 <=? v then (if negb (dlen =? 0) then lenN items * dlen else sumN (map (fun it => 4 + fst it) items)) else 0)
   end.
 
 (* header written by the leaf encoder *)
@@ -1391,7 +1478,7 @@ Definition leaf_table : list (list N * (hdr -> parser (leaf * rsvT))) :=
     (n_url, dec_url); (n_avcC, dec_avcC); (n_btrt, dec_btrt); (n_pasp, dec_pasp); (n_colr, dec_colr);
     (n_clap, dec_clap); (n_schm, dec_schm); (n_cslg, dec_cslg);
     (n_senc, dec_senc); (n_emsg, dec_emsg); (n_elng, dec_elng); (n_kind, dec_kind);
-    (n_hvcC, dec_hvcC); (n_subs, dec_subs); (n_esds, dec_esds); (n_uuid, dec_uuid) ].
+    (n_hvcC, dec_hvcC); (n_subs, dec_subs); (n_esds, dec_esds); (n_uuid, dec_uuid); (n_sgpd, dec_sgpd) ].
 
 (* boxes with a field prefix followed by child boxes.  PStrict off: DecodeContainerChildrenSR(hdr, startPos+off,
    startPos+hdr.Size) (sizes cross-checked against the bytes consumed); PEntry start: the sample entry loop
@@ -1656,6 +1743,7 @@ Definition leaf_guard (l : leaf) : bool :=
      kept UnknownData *)
   | LEsds _ _ _ _ _ _ _ _ _ _ _ canon => canon
   | LUuidSenc _ _ raw _ np => np || (lenN raw =? 0)
+  | LSgpd _ _ _ _ _ _ canon => canon
   | _ => true
   end.
 
